@@ -39,6 +39,16 @@ class C08(Property):
     SHAPE = [(REC, "Record.get_cds_features_within_location"), (REC, "Record._link_cds_to_parent"),
              (REC, "Record.add_cds_feature"), (REC, "Record.add_protocluster"),
              (REC, "Record.add_candidate_cluster"), (REC, "Record.add_subregion"), (REC, "Record.add_region"),
+             (REC, "Record.clear_regions"), (REC, "Record.clear_subregions"),
+             (REC, "Record.clear_candidate_clusters"), (REC, "Record.clear_protoclusters"),
+             (REC, "Record.get_cds_features"), (REC, "Record.get_cds_by_name"),
+             (REC, "Record.get_cds_features_within_regions"),
+             (FEAT + "cdscollection.py", "_CDSCache.features"),
+             (FEAT + "cdscollection.py", "_CDSCache._regen_cache"),
+             (FEAT + "cdscollection.py", "_SectionedCDSCache._regen_cache"),
+             (FEAT + "cdscollection.py", "_SectionedCDSTuple.__new__"),
+             (FEAT + "cdscollection.py", "CDSCollection.cds_children"),
+             (FEAT + "cdscollection.py", "CDSCollection.crosses_origin"),
              (FEAT + "cdscollection.py", "CDSCollection.add_cds"),
              (FEAT + "cdscollection.py", "_CDSCache.add_cds"),
              (FEAT + "cdscollection.py", "_SectionedCDSCache.add_cds"),
@@ -56,16 +66,21 @@ class C08(Property):
             "linear two-part, negative start) x both flags; exhaustive over all layouts of <= 3 genes on a line/ring of "
             "length 4 and <= 2 genes on length 5 (quick) / <= 3 genes on length 6 and <= 4 on length 4 (thorough, deep) "
             "with every query, plus random layouts of up to 12 genes on lengths up "
-            "to 10^6; history: random protocluster/candidate/subregion layouts with create_regions, genes with core "
-            "annotations, two random interleavings of the same calls; non-trivial = a query/area that keeps some gene "
+            "to 10^6, a quarter of them the nested shape (a long gene reaching into the query with shorter genes between its "
+            "start and the query start); history: random protocluster/candidate/subregion layouts with create_regions, genes with core "
+            "annotations, two random interleavings of the same calls; half of the histories are one ordering with clear_regions / "
+            "clear_subregions / clear_candidate_clusters / clear_protoclusters, re-adding of cleared collections, a second "
+            "create_regions, and observing calls in between (get_cds_features, cds_children with its three sections, "
+            "get_cds_by_name, get_cds_features_within_regions) whose returned values are compared and checked against the spec; non-trivial = a query/area that keeps some gene "
             "and rejects another; distinct by canonical input")
     TRUSTED = ["bisect.bisect_left is modelled by its contract (partition point on a sorted list); sortedness of the "
                "gene list is a proved invariant and is re-checked on the implementation's gene order in every case",
                "Biopython CompoundLocation.start/end/parts, location ordering via Feature.__lt__ (shared C04 model)",
                "locations of candidate clusters and regions are taken from the implementation (C05/C06 own them); "
                "create_regions is replayed in the model as one add_region per region it produced",
-               "position/numbering of areas in the record's lists, cds_children insertion order and the "
-               "pre/cross/post-origin sections are not observed",
+               "position/numbering of areas in the record's lists are not observed (get_cds_features_within_regions is "
+               "compared as a set); sections of collections that are or were somebody's child are compared with the model "
+               "but specified only as a cover of the gene list (they depend on the path the gene arrived by)",
                "genes whose origin-spanning location cannot be split (split_origin_bridging_location raises), "
                "duplicate gene names, mixed-strand compounds are not generated"]
 
@@ -215,9 +230,43 @@ class C08(Property):
                 yield {"f": "lookup", "len": n, "circ": circular, "genes": genes,
                        "qs": [{"q": q, "ov": ov} for q, ov in queries]}
 
+    @staticmethod
+    def nested_layout(rng: random.Random, n: int) -> Tuple[List[Dict[str, Any]], List[Dict[str, Any]]]:
+        """a long gene reaching into the query, with shorter genes between its start and the query's start
+           (nested in it / ending before the query / ending exactly at the query's start), and genes behind"""
+        s = rng.randrange(n // 3, 2 * n // 3)
+        e = rng.randrange(s + 1, min(n, s + max(2, n // 4)) + 1)
+        long_start = rng.randrange(0, max(1, s // 2))
+        long_end = rng.choice([s + 1, rng.randrange(s + 1, n + 1), e, n])
+        locs = [simple(long_start, long_end, rng.choice([1, -1]))]
+        for _ in range(rng.choice([1, 1, 2, 3, 5])):
+            a = rng.randrange(long_start, s)
+            b = rng.choice([s, s - 1, rng.randrange(a + 1, s + 1)])
+            if b > a:
+                locs.append(simple(a, b, rng.choice([1, -1])))
+        if rng.random() < 0.5:       # a second, even longer gene around everything
+            locs.append(simple(max(0, long_start - 1), n, 1))
+        for _ in range(rng.choice([0, 1, 2])):
+            a = rng.randrange(s, n)
+            locs.append(simple(a, rng.randrange(a + 1, n + 1), rng.choice([1, -1])))
+        genes, seen = [], set()
+        for loc in locs:
+            if loc_key(loc) not in seen:
+                seen.add(loc_key(loc))
+                genes.append({"id": len(genes), "loc": loc})
+        qs = [{"q": simple(s, e, 1), "ov": True}, {"q": simple(s, e, 1), "ov": False},
+              {"q": simple(s, min(n, e + 1), None), "ov": True}]
+        return genes, qs
+
     def random_lookup(self, rng: random.Random) -> Dict[str, Any]:
         n = rng.choice([6, 8, 10, 12, 20, 30, 30, 60, 100, 1000, 10**6])
         circular = rng.random() < 0.5
+        if n >= 12 and rng.random() < 0.25:
+            genes, qs = self.nested_layout(rng, n)
+            rng.shuffle(genes)
+            for i, g in enumerate(genes):
+                g["id"] = i
+            return {"f": "lookup", "len": n, "circ": circular, "genes": genes, "qs": qs}
         k = rng.choice([1, 2, 3, 4, 5, 6, 8, 12])
         genes = self.rand_layout(rng, n, circular, k)
         rng.shuffle(genes)
